@@ -662,7 +662,7 @@ func ZZ_S08c_CancelHedge() {
 	D := symDur("hedgeDelay", 1, 30)
 	c := symDur("cancelAt", 0, 30)
 	matching := zzvrt.Choose("cancel-conditions-match", 2) == 1
-	b := hedgepolicy.BuilderWithDelay[int](D).WithMaxHedges(1)
+	b := hedgepolicy.BuilderWithDelay[int](D).WithMaxHedges(zzvrt.Param("max_hedges", 1))
 	if !matching {
 		b = b.CancelOnResult(12345) // nothing the attempts produce matches: a result is accepted only when all attempts finished
 	}
